@@ -7,7 +7,7 @@
    distinct values and prefix-free indices, target values have the type their action expects.
    Only statements; proofs in theories/SchcRoundtrip.v (built on SchcCodec, SchcRules, ParserTiling). *)
 From Coq Require Import ZArith List Bool.
-From MS Require Import PyBase Bits Schc SchcSpec SchcCodec SchcRules SchcRoundtrip Parsers ParserTiling Compute.
+From MS Require Import PyBase Bits Schc SchcSpec SchcCodec SchcRules SchcRoundtrip Parsers ParserTiling Compute RfcChecksum StackRoundtrip Buffer BufferAbs SchcBytes SchcRefine ParserBytes ParserRefine EndToEnd.
 Import ListNotations.
 Open Scope Z_scope.
 
@@ -53,6 +53,53 @@ Theorem c01_matcher rules pd : forallb rule_typed rules = true ->
   match_packet_descriptor rules pd = gen_of_list (filter (spec_rule_applies pd) rules).
 Proof. exact (match_packet_descriptor_spec rules pd). Qed.
 
+(* the premise of c01_roundtrip_compute (the compute functions restore the computed fields) discharged for the two
+   IP/UDP stacks: the packet's computable fields carry the values RFC 8200 / RFC 791 / RFC 768 define (v6_correct, v4_correct,
+   stated with the independent checksum specification RfcChecksum), the rule may mark ANY subset of them as compute,
+   any fields may follow the UDP header (CoAP) *)
+Theorem c01_stack_ipv6_udp d pd r :
+  pd_dir pd = d -> rule_ok_dec compute_functions d pd r -> spec_rule_applies pd r = true ->
+  v6_shape (pd_fields pd) -> v6_correct (pd_fields pd) (pd_payload pd) ->
+  exists s, compress pd r (Some d) = Ok s /\
+            decompress compute_functions s r (Some d) = Ok (concat (map f_val (pd_fields pd)) ++ pd_payload pd).
+Proof. exact (c01_roundtrip_ipv6_udp d pd r). Qed.
+Theorem c01_stack_ipv4_udp d pd r :
+  pd_dir pd = d -> rule_ok_dec compute_functions d pd r -> spec_rule_applies pd r = true ->
+  v4_shape (pd_fields pd) -> v4_correct (pd_fields pd) (pd_payload pd) ->
+  exists s, compress pd r (Some d) = Ok s /\
+            decompress compute_functions s r (Some d) = Ok (concat (map f_val (pd_fields pd)) ++ pd_payload pd).
+Proof. exact (c01_roundtrip_ipv4_udp d pd r). Qed.
+(* non-vacuity of the two: concrete packets with rules computing lengths and checksums *)
+Example c01_stack_ex6 : v6_shape ex6_fields /\ v6_correct ex6_fields ex6_pl.
+Proof. exact (conj ex6_shape ex6_correct). Qed.
+Example c01_stack_ex4 : v4_shape ex4_fields /\ v4_correct ex4_fields ex4_pl.
+Proof. exact (conj ex4_shape ex4_correct). Qed.
+
+(* END TO END AT THE BYTE LEVEL: from the raw packet bytes (a canonical left-padded Buffer, as the constructor builds it),
+   through the byte-level parsers (ParserBytes.v), byte-level compress and decompress (SchcBytes.v, every Buffer operation as
+   buffer.py performs it): the decompressed Buffer is canonical, has the bits of the packet and compares equal (__eq__) to it.
+   Rules without compute actions (the byte-level decompress model stops at compute; see c01_stack_* for compute at bit level). *)
+Theorem c01_bytes_roundtrip ct s b bfs bpl r d :
+  canon b -> bside b = LEFT -> canon_rule r -> bfactory s b = Ok (bfs, bpl) ->
+  let pd := abs_pdesc abs (mkbpdesc d bfs bpl) in
+  let r' := abs_rule abs r in
+  rule_ok_dec ct d pd r' -> spec_rule_applies pd r' = true ->
+  forallb (fun rf => match r_cda rf with Compute => false | _ => true end) (select_fds (Some d) (rule_fds r')) = true ->
+  exists x y, bcompress (mkbpdesc d bfs bpl) r (Some d) = Ok x /\ canon x /\
+              bdecompress x r (Some d) = Ok y /\ canon y /\ abs y = abs b /\ b_eq y b = Ok true.
+Proof. exact (bytes_roundtrip_plain ct s b bfs bpl r d). Qed.
+Theorem c01_bytes_no_compression s b bfs bpl r d :
+  canon b -> bside b = LEFT -> canon_rule r -> bfactory s b = Ok (bfs, bpl) ->
+  brule_nature r = NoCompression -> brule_fds r = [] ->
+  exists x y, bcompress (mkbpdesc d bfs bpl) r (Some d) = Ok x /\ canon x /\
+              bdecompress x r (Some d) = Ok y /\ canon y /\ abs y = abs b /\ b_eq y b = Ok true.
+Proof. exact (bytes_roundtrip_nocompression s b bfs bpl r d). Qed.
+Example c01_bytes_ex : exists bfs bpl x y,
+  bfactory S_UDP ex_packet = Ok (bfs, bpl) /\
+  bcompress (mkbpdesc Up bfs bpl) ex_rule (Some Up) = Ok x /\ canon x /\
+  bdecompress x ex_rule (Some Up) = Ok y /\ canon y /\ abs y = abs ex_packet /\ b_eq y ex_packet = Ok true.
+Proof. exact bytes_roundtrip_ex. Qed.
+
 (* non-vacuity: a UDP packet, a rule using four of the pairings, round trip through the manager *)
 Example c01_ex :
   let pkt := bits_of 16 4660 ++ bits_of 16 7 ++ bits_of 16 12 ++ bits_of 16 0 ++ bits_of 32 1090519041 in
@@ -71,6 +118,10 @@ Proof. vm_compute. split; reflexivity. Qed.
 Print Assumptions c01_roundtrip_plain.
 Print Assumptions c01_roundtrip_compute.
 Print Assumptions c01_no_compression.
+Print Assumptions c01_stack_ipv6_udp.
+Print Assumptions c01_stack_ipv4_udp.
+Print Assumptions c01_bytes_roundtrip.
+Print Assumptions c01_bytes_no_compression.
 Print Assumptions c01_manager.
 Print Assumptions c01_stack_tiles.
 Print Assumptions c01_matcher.
